@@ -768,3 +768,161 @@ def _(v):
             bad_rate.append((name, repr(ex)[:160])); bad_par.append((name, repr(ex)[:160]))
     v.prove("physical_rate_with_suffixed_doserate_keys", not bad_rate, detail=repr(bad_rate[:2]))
     v.prove("parameter_units_consistent_with_the_numbers_handed_over", not bad_par, detail=repr(bad_par[:3]))
+
+
+@harness("C10", "Reaction.acceptance_depends_on_the_dimension_only", functions=[CH + ":Reaction.check_consistent_units", CH + ":Reaction.__init__", CH + ":Equilibrium.check_consistent_units",
+                                                                               "chempy.units:to_unitless"], kind="data")
+def _(v):
+    """'accepts a unit-carrying rate constant IF AND ONLY IF its dimension is concentration^(1-order)/time, WHATEVER CONCRETE UNITS EXPRESS IT' with
+    real quantities over the whole grid of the quantifier (orders 0..3; s, min, h, ms; M, mM, uM, mol/m3, mol/cm3) and over the magnitudes a
+    double can hold in the units given (1e-305 .. 1e305: the same constant written in another unit has another number in front): the verdict of the
+    constructor, of check_consistent_units() and of check_consistent_units(throw=True) is a function of the dimension alone -- never of the
+    magnitude, of the unit chosen or of what the number would be in M and s; one concentration too many / too few is refused at every magnitude.
+    The equilibrium half ('never accepts another dimension') likewise at every magnitude"""
+    import warnings
+    from chempy.chemistry import Reaction, Equilibrium
+    from chempy.units import default_units as u
+    warnings.simplefilter("ignore")
+    times = (("s", u.s), ("min", u.minute), ("h", u.hour), ("ms", u.ms))
+    concs = (("M", u.molar), ("mM", u.mM), ("uM", u.uM), ("mol/m3", u.mol / u.m3), ("mol/cm3", u.mol / u.cm3))
+    mags = (1e-305, 1e-150, 2.5, 1e150, 1e305)
+
+    def verdicts(order, k):
+        out = []
+        try:
+            Reaction(_reac(order), {"P": 1}, k); out.append(True)
+        except Exception:
+            out.append(False)
+        try:
+            rxn = Reaction(_reac(order), {"P": 1}, k, checks=())
+        except Exception as ex:
+            return out + [repr(ex)[:60]]
+        try:
+            out.append(rxn.check_consistent_units())
+        except Exception as ex:
+            out.append(repr(ex)[:60])
+        try:
+            rxn.check_consistent_units(throw=True); out.append(True)
+        except Exception:
+            out.append(False)
+        return out
+    refused, accepted = [], []
+    for order in (0, 1, 2, 3):
+        for tn, tu in times:
+            for cn, cu in concs:
+                for m in mags:
+                    for off in (0, 1, -1):
+                        got = verdicts(order, m * cu ** (1 - order + off) / tu)
+                        if off == 0 and not all(g is True or g == True for g in got):       # noqa: E712
+                            refused.append((order, "%g %s^%d/%s" % (m, cn, 1 - order, tn), got))
+                        if off != 0 and not all(g is False or g == False for g in got):     # noqa: E712
+                            accepted.append((order, "%g %s^%d/%s" % (m, cn, 1 - order + off, tn), got))
+    v.prove("right_dimension_accepted_in_every_unit_at_every_magnitude", not refused, detail="%d refused, e.g. %r" % (len(refused), refused[:3]))
+    v.prove("wrong_dimension_refused_in_every_unit_at_every_magnitude", not accepted, detail="%d accepted, e.g. %r" % (len(accepted), accepted[:3]))
+    # the same physical constant, 1e-310 M/s = 1e-304 uM/s = 3.6e-301 uM/h (and 1e309/(M2 s) = 1e300/(mM2 ms) which has no double in M, s): one verdict
+    same = [verdicts(0, 1e-310 * u.molar / u.s), verdicts(0, 1e-304 * u.uM / u.s), verdicts(0, 3.6e-301 * u.uM / u.hour), verdicts(3, 1e300 / u.mM ** 2 / u.ms)]
+    v.prove("one_constant_written_in_several_units_has_one_verdict", all(g is True or g == True for s in same for g in s), detail=repr(same))       # noqa: E712
+    eq_acc = []
+    for expo, (r, p) in ((-1, ({"A": 2}, {"B": 1})), (0, ({"A": 1}, {"B": 1})), (1, ({"A": 1}, {"B": 1, "C": 1}))):
+        for cn, cu in concs:
+            for m in mags:
+                for off in (1, -1):
+                    for kw in ({}, {"throw": True}):
+                        try:
+                            if Equilibrium(r, p, m * cu ** (expo + off), checks=()).check_consistent_units(**kw) or kw:
+                                eq_acc.append((expo, "%g %s^%d" % (m, cn, expo + off), kw))
+                        except Exception:
+                            pass                                             # refused
+    v.prove("equilibrium_wrong_dimension_refused_at_every_magnitude", not eq_acc, detail=repr(eq_acc[:4]))
+
+
+@harness("C10", "several_runs_at_once_in_mixed_units", functions=["chempy.kinetics.ode:get_odesys", "chempy.kinetics.ode:get_odesys.<locals>.<lambda>", "chempy.units:to_unitless",
+                                                                 "chempy.units:unitless_in_registry"], kind="data")
+def _(v):
+    """'for every choice of units for constants, concentrations and time' when SEVERAL initial states / parameter sets are handed over at once
+    (a dict in which some entries are arrays: one row per run) and every species / constant comes in its OWN unit:  A -> B (k1),  2 B -> C (k2).
+    Each row handed to the integrator, times the registry's concentration unit (the unit reported for the constant), is what was given for that
+    run, and the physical rate of each run is the hand computation in M and s:  d[A]/dt = -k1 [A],  d[B]/dt = k1 [A] - 2 k2 [B]^2,  d[C]/dt =
+    k2 [B]^2  with 3/min = 0.05/s, 7.2/(mM h) = 2/(M s).  The conversion underneath (chempy.units.to_unitless of a list / tuple / object array of
+    quantities in different units) converts every element from ITS unit"""
+    import warnings
+    import numpy as np
+    from chempy.chemistry import Reaction
+    from chempy.reactionsystem import ReactionSystem
+    from chempy.kinetics.ode import get_odesys
+    from chempy.kinetics.rates import MassAction
+    from chempy.units import SI_base_registry, default_units as u, to_unitless
+    warnings.simplefilter("ignore")
+    regs = {"SI": dict(SI_base_registry), "dm_min_umol": dict(SI_base_registry, length=u.decimetre, time=u.minute, amount=u.micromole), "cm_h": dict(SI_base_registry, length=u.centimetre, time=u.hour)}
+    k1, k2 = 3.0 / u.minute, 7.2 / u.mM / u.hour
+    # label -> (initial state, parameters, per run by hand: ([A], [B], [C]) in M, (k1 in 1/s, k2 in 1/(M s)))
+    cases = {
+        "one_species_varied": ({"A": [1.0, 2.0, 3.0] * u.molar, "B": 250.0 * u.mM, "C": 0.0 * u.mol / u.m3}, {"k1": k1, "k2": k2},
+                               [((1.0, 0.25, 0.0), (0.05, 2.0)), ((2.0, 0.25, 0.0), (0.05, 2.0)), ((3.0, 0.25, 0.0), (0.05, 2.0))]),
+        "first_species_fixed": ({"A": 4 * u.mM, "B": [0.25, 0.5] * u.mol / u.m3, "C": 0.0 * u.molar}, {"k1": 0.05 / u.s, "k2": [7.2, 14.4] / u.mM / u.hour},
+                                [((4e-3, 0.25e-3, 0.0), (0.05, 2.0)), ((4e-3, 0.5e-3, 0.0), (0.05, 4.0))]),
+        "all_varied": ({"A": [4, 5] * u.mM, "B": [250.0, 500.0] * u.uM, "C": [0.0, 1e-6] * u.mol / u.cm3}, {"k1": [3.0, 6.0] / u.minute, "k2": 2.0 / u.molar / u.s},
+                       [((4e-3, 250e-6, 0.0), (0.05, 2.0)), ((5e-3, 500e-6, 1e-3), (0.1, 2.0))]),
+        "constants_varied_only": ({"A": 1 * u.molar, "B": 250.0 * u.mM, "C": 0.0 * u.mol / u.m3}, {"k1": [180.0, 360.0] / u.hour, "k2": [2.0, 4.0] / u.molar / u.s},
+                                  [((1.0, 0.25, 0.0), (0.05, 2.0)), ((1.0, 0.25, 0.0), (0.1, 4.0))]),
+    }
+    bad_y, bad_p, bad_f = [], [], []
+    for name, reg in regs.items():
+        try:
+            rsys = ReactionSystem([Reaction({"A": 1}, {"B": 1}, MassAction([k1], unique_keys=["k1"])), Reaction({"B": 2}, {"C": 1}, MassAction([k2], unique_keys=["k2"]))], "A B C")
+            odesys, extra = get_odesys(rsys, include_params=False, unit_registry=reg)
+            conc_si = _si(reg["amount"] / reg["length"] ** 3)[0]                       # mol/m3 per registry concentration unit
+            rate_si = _si(reg["amount"] / reg["length"] ** 3 / reg["time"])[0]
+            pu = {k: _si(q)[0] for k, q in zip(odesys.param_names, extra["p_units"])}  # SI: 1/s, m3/(mol s)
+            ik1, ik2 = list(odesys.param_names).index("k1"), list(odesys.param_names).index("k2")
+        except Exception as ex:
+            for b in (bad_y, bad_p, bad_f):
+                b.append((name, repr(ex)[:160]))
+            continue
+        for label, (c0, params, hand) in cases.items():
+            try:
+                x, y, p = odesys.to_arrays(1 * u.s, c0, params)
+                y, p = np.asarray(y, dtype=float), np.asarray(p, dtype=float)
+                if y.shape != (len(hand), 3) or p.shape != (len(hand), 2):
+                    bad_y.append((name, label, "shapes", y.shape, p.shape))
+                    continue
+                for i, ((a, b, c), (h1, h2)) in enumerate(hand):
+                    if not np.allclose(y[i] * conc_si / 1000.0, [a, b, c], rtol=1e-11, atol=0):
+                        bad_y.append((name, label, i, list(y[i] * conc_si / 1000.0), (a, b, c)))
+                    got_k = [p[i][ik1] * pu["k1"], p[i][ik2] * pu["k2"] * 1000.0]         # 1/s, 1/(M s)
+                    if not np.allclose(got_k, [h1, h2], rtol=1e-11, atol=0):
+                        bad_p.append((name, label, i, got_k, (h1, h2)))
+                    f = np.asarray(odesys.f_cb(float(np.ravel(x)[0]), y[i], p[i]), dtype=float).ravel() * rate_si / 1000.0     # M/s
+                    ref = [-h1 * a, h1 * a - 2 * h2 * b ** 2, h2 * b ** 2]
+                    if not np.allclose(f, ref, rtol=1e-10, atol=0):
+                        bad_f.append((name, label, i, list(f), ref))
+            except Exception as ex:
+                for b in (bad_y, bad_p, bad_f):
+                    b.append((name, label, repr(ex)[:160]))
+    v.prove("each_species_of_each_run_read_in_its_own_unit", not bad_y, detail="%d, e.g. %r" % (len(bad_y), bad_y[:2]))
+    v.prove("each_constant_of_each_run_read_in_its_own_unit", not bad_p, detail="%d, e.g. %r" % (len(bad_p), bad_p[:2]))
+    v.prove("physical_rate_of_each_run_equals_the_hand_computation", not bad_f, detail="%d, e.g. %r" % (len(bad_f), bad_f[:2]))
+    # the conversion underneath: 1 M, 250 mM, 2 mol/cm3 (= 2000 M), 3 uM -- in M: 1, 0.25, 2000, 3e-6
+    try:
+        qs = [1 * u.molar, 250 * u.mM, 2 * u.mol / u.cm3, 3 * u.uM]
+        want = np.array([1.0, 0.25, 2000.0, 3e-6])
+        arr = np.empty(4, dtype=object)
+        for i, q in enumerate(qs):
+            arr[i] = q
+        forms = {"list": list(qs), "tuple": tuple(qs), "object_array": arr, "object_array_2d": arr.reshape(2, 2), "list_of_lists": [qs[:2], qs[2:]]}
+        wrong = []
+        for label, val in forms.items():
+            for unit_name, unit, per_M in (("M", u.molar, 1.0), ("mol/m3", u.mol / u.m3, 1e3), ("uM", u.uM, 1e6)):
+                got = np.asarray(to_unitless(val, unit), dtype=float)
+                if got.shape != np.shape(val) or not np.allclose(got.ravel(), want * per_M, rtol=1e-12, atol=0):
+                    wrong.append((label, unit_name, got.tolist()))
+        # a wrong dimension anywhere in the block is refused, not read in a neighbour's unit
+        for label, val in (("list", [1 * u.molar, 2 * u.s]), ("object_array", np.array([1 * u.molar, 2 * u.mM, 3 * u.s], dtype=object))):
+            try:
+                wrong.append((label, "wrong dimension taken", np.asarray(to_unitless(val, u.molar)).tolist()))
+            except Exception:
+                pass
+        det = repr(wrong[:3])
+    except Exception as ex:
+        wrong, det = [repr(ex)], repr(ex)[:200]
+    v.prove("block_of_quantities_converted_element_by_element", not wrong, detail=det)
